@@ -157,6 +157,45 @@ def real_step(state, ev, bh, path):
     return r, after, before_dir, after_dir
 
 
+def real_step_cli(state, ev, bh, path):
+    """the same event through `octave write` (content / changes; the CLI has no dry run and no normalize mode)"""
+    e = _env()
+    if "cli" not in e:
+        from click.testing import CliRunner
+        from octave_mcp.cli.main import cli
+        e.update(cli=cli, runner=CliRunner())
+    if os.path.exists(path):
+        os.unlink(path)
+    if state is not None:
+        with open(path, "w", encoding="utf-8", newline="") as f:
+            f.write(state)
+    name, dry, base = ev
+    argv = ["write", path]
+    if name == "writeA":
+        argv += ["--content", A_TEXT]
+    elif name == "writeB":
+        argv += ["--content", B_TEXT]
+    else:
+        argv += ["--changes", json.dumps(CHANGES)]
+    if bh:
+        argv += ["--base-hash", bh]
+    before_dir = sorted(os.listdir(os.path.dirname(path)))
+    q = e["runner"].invoke(e["cli"], argv)
+    if q.exception is not None and not isinstance(q.exception, SystemExit):
+        r = {"status": "raised", "errors": [{"code": type(q.exception).__name__}]}
+    elif q.exit_code == 0:
+        h = [ln.split(":", 1)[1].strip() for ln in q.output.split("\n") if ln.startswith("canonical_hash:")]
+        r = {"status": "success", "canonical_hash": h[0] if h else None}
+    else:
+        # the CLI prints a message, no error code: only "refused" is observable (which check refused first is not part of the property)
+        r = {"status": "error", "errors": [{"code": "*", "message": q.output[-200:]}]}
+    after = None
+    if os.path.exists(path):
+        with open(path, "rb") as f:
+            after = f.read().decode("utf-8")
+    return r, after, before_dir, sorted(os.listdir(os.path.dirname(path)))
+
+
 def judge_step(state, ev, r, after, before_dir, after_dir, exp_cls, exp_next):
     out = []
     name, dry, base = ev
@@ -168,7 +207,9 @@ def judge_step(state, ev, r, after, before_dir, after_dir, exp_cls, exp_next):
             out.append(("unspecified-case-left-partial-file", f"after={after!r}", "absent or complete"))
     else:
         if exp_cls.startswith("error:"):
-            ok = cls.startswith("error:") and (code in exp_cls[6:].split("|"))
+            ok = cls.startswith("error:") and (code in exp_cls[6:].split("|") or code == "*")      # "*": the CLI prints no error code
+        elif exp_cls == "E_HASH" and code == "*":
+            ok = True
         else:
             ok = cls == exp_cls
         if not ok:
@@ -209,6 +250,12 @@ def check_histories(case) -> Res:
                 for desc, obs, exp in judge_step(state, ev, r, after, bd, ad, exp_cls, exp_next):
                     key = f"history:{desc}:{ev[0]}{':dry' if ev[1] else ''}:base={ev[2]}"
                     viol.setdefault(key, dict(descriptor=key, case=dict(state=state, event=list(ev), base_hash=bh), observed=obs, expected=exp))
+                if not ev[1] and ev[0] in ("writeA", "writeB", "changes"):
+                    rc, afterc, bdc, adc = real_step_cli(state, ev, bh, path)
+                    transitions += 1
+                    for desc, obs, exp in judge_step(state, ev, rc, afterc, bdc, adc, exp_cls, exp_next):
+                        key = f"history.cli:{desc}:{ev[0]}:base={ev[2]}"
+                        viol.setdefault(key, dict(descriptor=key, case=dict(state=state, event=list(ev), base_hash=bh, route="cli"), observed=obs, expected=exp))
                 if len(samples) < 6:
                     samples.append(dict(state=state, event=list(ev), envelope=r.get("status"), next=after))
                 if after not in seen:
